@@ -942,6 +942,40 @@ impl<F: FromUniformBytes<64> + Ord> MockProver<F> {
             )
         };
 
+        // Check that all constraints with an additive selector (trash arguments) are
+        // satisfied for all rows. The argument enforces `q(X) * c_i(X) = 0` for every
+        // constraint `c_i` of the argument, where `q` is its selector.
+        let trash_errors = self.cs.trashcans.iter().enumerate().flat_map(|(trash_index, trash)| {
+            let blinding_rows =
+                (self.n as usize - (self.cs.blinding_factors() + 1))..(self.n as usize);
+            (gate_row_ids.clone().into_par_iter().chain(blinding_rows.into_par_iter()))
+                .flat_map(move |row| {
+                    trash
+                        .constraint_expressions()
+                        .iter()
+                        .enumerate()
+                        .filter_map(move |(constraint_index, poly)| {
+                            let gated = trash.selector().clone() * poly.clone();
+                            match load(&gated, row) {
+                                Value::Real(x) if x.is_zero_vartime() => None,
+                                _ => Some(VerifyFailure::Trash {
+                                    name: trash.name().to_string(),
+                                    trash_index,
+                                    constraint_index,
+                                    location: FailureLocation::find_expressions(
+                                        &self.cs,
+                                        &self.regions,
+                                        row,
+                                        Some(poly).into_iter(),
+                                    ),
+                                }),
+                            }
+                        })
+                        .collect::<Vec<_>>()
+                })
+                .collect::<Vec<_>>()
+        });
+
         let mut cached_table = Vec::new();
         let mut cached_table_identifier = Vec::new();
         // Check that all lookups exist in their respective tables.
@@ -1085,6 +1119,7 @@ impl<F: FromUniformBytes<64> + Ord> MockProver<F> {
         let mut errors: Vec<_> = iter::empty()
             .chain(selector_errors)
             .chain(gate_errors)
+            .chain(trash_errors)
             .chain(lookup_errors)
             .chain(perm_errors)
             .collect();
